@@ -115,6 +115,64 @@ def row_case(ctx, rng, process_row):
     ctx.count("corr:row")
     if m != py:
         ctx.mismatch("Spell.processRow vs process_row", {"dl": dl, "cells": cells}, py, m)
+    row_theorems_on_impl(ctx, rng, process_row, dl, cells)
+
+
+def _prow(process_row, dl, cells):
+    return process_row("survey", {"::".join(t): v for t, v in cells}, {"::".join(t): tuple(t) for t, _ in cells}, dl)
+
+
+def row_theorems_on_impl(ctx, rng, process_row, dl, cells):
+    """The statements of `process_row_group` / `column_perm_partial` / `column_perm_three` evaluated on the
+    implementation: for a group column (every cell has >= 2 tokens) `out[c]` is `process_row` of the cells with
+    the first token removed; under the theorems' guards a shuffled row gives the same nested finite map."""
+    try:
+        out = _prow(process_row, dl, cells)
+        sh = list(cells)
+        rng.shuffle(sh)
+        out2 = _prow(process_row, dl, sh)
+    except Exception:  # noqa: BLE001
+        return
+    for c in {t[0] for t, _ in cells}:
+        mine = [(t, v) for t, v in cells if t[0] == c]
+        lens = {len(t) for t, _ in mine}
+        if min(lens) >= 2:
+            ctx.count("corr:row_group_law")
+            sub = _prow(process_row, dl, [[t[1:], v] for t, v in mine])
+            if out.get(c) != sub:
+                ctx.mismatch("process_row_group on the implementation", {"dl": dl, "cells": cells, "column": c}, py_val(out.get(c)), py_val(sub))
+        if max(lens) <= 2 or (min(lens) >= 2 and max(lens) <= 3):
+            ctx.count("corr:row_perm_guarded")
+            if out.get(c) != out2.get(c):  # dict equality = same nested finite map
+                ctx.mismatch("column_perm_partial/three on the implementation", {"dl": dl, "cells": cells, "shuffled": sh, "column": c},
+                             py_val(out.get(c)), py_val(out2.get(c)))
+
+
+def row_witnesses(ctx, process_row):
+    """The two kernel-checked counter-witnesses (`dup_tokens_order_dependent` is stated on tokens, so it is run on
+    the model only and on `process_row` with two headers of one token tuple; `plain_beside_deep_order_dependent`)
+    reproduced on the implementation: model = implementation in both orders, and the orders differ."""
+    P, F, X = [["c"], "P"], [["c", "fr"], "F"], [["c", "default", "x"], "X"]
+    res = []
+    for cells in ([P, F, X], [X, P, F]):
+        py = [[k, py_val(v)] for k, v in _prow(process_row, "default", cells).items()]
+        m = ctx.driver.call("spell.row", dl="default", cells=cells)
+        ctx.count("corr:row_witness")
+        if m != py:
+            ctx.mismatch("Spell.processRow vs process_row (witness)", {"cells": cells}, py, m)
+        res.append(py)
+    ctx.notes["row_order_dependence_outside_guards"] = (
+        "c / c::fr / c::default::x in two orders: implementation and model agree, results %s"
+        % ("differ (as the counter-witness theorem says)" if res[0] != res[1] else "are equal on the implementation (the model, for which plain_beside_deep_order_dependent is proved, then no longer corresponds: reported as a mismatch)")
+    )
+    hk = {"caption": ("label",), "label": ("label",)}
+    a = process_row("survey", {"caption": "A", "label": "B"}, hk, "default")
+    b = process_row("survey", {"label": "B", "caption": "A"}, hk, "default")
+    ma = ctx.driver.call("spell.row", dl="default", cells=[[["label"], "A"], [["label"], "B"]])
+    mb = ctx.driver.call("spell.row", dl="default", cells=[[["label"], "B"], [["label"], "A"]])
+    for py, m, cs in ((a, ma, "caption,label"), (b, mb, "label,caption")):
+        if m != [[k, py_val(v)] for k, v in py.items()]:
+            ctx.mismatch("Spell.processRow vs process_row (duplicate token tuple, F53 class)", {"order": cs}, py_val(py), m)
 
 
 def run(ctx, n):
@@ -204,6 +262,7 @@ def run(ctx, n):
     # ---- process_row / merge_dicts on nested headers (translations, groups, the default language as a suffix)
     for i in range(n // 2):
         row_case(ctx, rng, process_row)
+    row_witnesses(ctx, process_row)
     ctx.count("corr:cases", n)
     ctx.count("corr:unsupported", unsupported)
     ctx.notes["model_fragment"] = (
